@@ -217,6 +217,22 @@ def gen(rng, tier):
         for j, (fname, fops) in enumerate(followups()):
             for prof in (profiles if tier == "thorough" else [profiles[(i + j) % 2]]):
                 cases.append(make_followup_case(label, body, fname, fops, prof))
+    # a broker that answers a retryable group code for ever, for every retry limit incl. 0 and 1: the call must come back
+    for limit in (0, 1, 3):
+        for (what, code) in (("lookup", 15), ("commit", 14), ("commit", 16), ("group_fetch", 14), ("group_fetch", 16)):
+            spec = cluster_spec()
+            spec["coordinator"] = {b"g": 1}
+            if what == "lookup":
+                spec["coordinator_script"] = {b"g": [code] * 60}
+            else:
+                spec["inject"] = [("offset_commit" if what == "commit" else "offset_fetch", None, None, code, -1)]
+            call = (T("commit_offsets", [b"g", [T("co", [T1, 0, 1])]]) if what == "commit"
+                    else T("fetch_group_offsets", [b"g", [T("fgo", [T1, 0]), T("fgo", [T1, 1])]]))
+            cons = T("consumer_build", [T("from_client"), [T("with_group", [b"g"]), T("with_topic", [T1])]])
+            for op in (call, cons):
+                cases.append({"cluster": spec, "ops": boot_ops(spec) + [T("set_group_offset_storage", [1]), T("set_retry_max_attempts", [limit]), op],
+                              "profile": profiles[(limit + code) % 2],
+                              "meta": {"target": "%s-answers-%d-forever/limit-%d/%s" % (what, code, limit, op.name), "api": "group", "label": "persistent-retryable"}})
     for n, c in enumerate(cases):
         c["id"] = "C13-%d-%s-%s" % (n, c["meta"]["target"], c["meta"]["label"])
     return cases
